@@ -41,8 +41,10 @@ ASSUMPTIONS = [
     "the `definitions` dict of structure_to_schema is an accumulator (statement) and is not part of the snapshot",
     "cyclic argument graphs and recursion-limit depths are outside the generated cases (the model's deep copy fails "
     "when its fuel runs out, like RecursionError)",
-    "default configuration (defensive_copy_on_get on, no trusted instantiation, uniqueness features off); mappers: "
-    "Serializer/Deserializer custom mappers are not generated here (suite `mapper` snapshots them for C07)",
+    "default configuration (defensive_copy_on_get on, uniqueness features off); the trusted short cuts "
+    "(direct_trusted_mapping, from_trusted_data, trust_supplied_values) keep what they are given by contract: only their "
+    "argument snapshots are judged; the `mapper=` argument is passed as None / dict / list of chained mappers and "
+    "snapshotted, the renaming semantics of custom mappers are C07's (suite `mapper`)",
     "which option of a multi-field wrapper takes a value is decided by the model from the value's shape (Python container "
     "class / scalar class); value constraints of the options are not modelled, so generated wrappers keep at most one option "
     "per container value class (sequence-like, dict-like) and no NotField / Anything option",
@@ -53,7 +55,12 @@ ASSUMPTIONS = [
 TRUSTED_EXTRA = [
     "extract/aliasing.py (AST idiom matcher + witness probe producing Generated/Aliasing.lean), "
     "harness/aliasprobe.py heapify/object_graph (abstraction of Python object graphs to heap cells: containers and "
-    "Structure instances are cells, everything else an atom) and harness/suites/alias.shape_for (declaration -> Shape)",
+    "Structure instances are cells, everything else an atom carrying its Python class; typed wrappers and "
+    "ImmutableStructure instances tagged apart) and harness/suites/alias.shape_for (declaration -> Shape, all options of a "
+    "multi-field wrapper; the option `<Wrapper>.serialize` delegates to is read off the source)",
+    "harness/suites/alias.py py_fits / resolve_shape / site_chain_v (Python mirror of the model's option choice): used only "
+    "to NAME the table site a finding is blamed on and to see which site a witness exercises, never for a verdict",
+    "harness/suites/alias_api.py (introspection of the public API; one probe per entry point outside the operation streams)",
 ]
 
 
